@@ -309,6 +309,7 @@ inductive Expr
   | ref (view : Option String) (name : String)   -- a field reference by name, not yet resolved
   | bad (e : ResErr)                              -- a field reference whose resolution failed
   | scalar (s : Nat)                              -- scalar sub-query number s of the enclosing query
+  | num (view : String) (number : Int)            -- a column number `t.2`, not yet resolved
   deriving Repr, Inhabited
 
 inductive CondE
@@ -333,6 +334,7 @@ def evalExpr (lw : Nat) (r : Row) : Expr → Profile
   | .ref _ _ => nullP
   | .bad _ => nullP
   | .scalar _ => nullP
+  | .num _ _ => nullP
 
 /-- a ternary result as a value (`value.NewTernary`) -/
 def ternP (t : Tern) : Profile := profileOf (.tern t)
@@ -586,6 +588,7 @@ def existsOf (res : Nat × List Row) : Tern := Tern.ofBool (!res.2.isEmpty)
 
 def evalExprE (subs : SubEnv) (lw : Nat) (r : Row) : Expr → Except ResErr Profile
   | .ref _ _ => .error .notExist
+  | .num _ _ => .error .notExist
   | .bad e => .error e
   | .scalar s =>
     match subs s with
